@@ -19,7 +19,11 @@ LEAN_MODULES = ["DracoProps.C14"]
 TIMEOUT = 3000
 STRICT = os.environ.get("VERIF_C14_STRICT", "") not in ("", "0")
 
-RULE = ("random triangle soups / meshes / point sets with 1..5 attributes over all 11 data types and 1..6 components, "
+RULE = ("exhaustive small shapes: clean-up of every ordered pair of faces "
+        "over 3 points + 1 isolated point under 3 position layouts x all 16 option subsets (thorough: also every "
+        "triple under 3 option sets), strips of every pair of faces over 4 points, and over 5 points two of which share a position "
+        "(attribute seams at one end of an edge), in both modes (thorough: a 1/16 resp. 1/128 class of the triples), deduplication of 4 points under every pair of "
+        "point->value maps of two attributes; plus random triangle soups / meshes / point sets with 1..5 attributes over all 11 data types and 1..6 components, "
         "values drawn from small pools (duplicate-heavy) containing +0.0/-0.0, NaNs with equal and different payloads, "
         "infinities, denormals, integer extremes; identity and explicit point->value maps, unused values, unused "
         "points, non-deduplicated points, per-face attributes, meshes without / with several POSITION attributes; "
@@ -468,10 +472,97 @@ def cone_with_half_seams(rng, k, restart_flip=False):
     return g
 
 
+# ------------------------------------------------------------------ exhaustive small inputs
+
+def tiny_att(att_type, uid, amap, nv, base=10):
+    """one-component UINT8 attribute with the distinct values base, base+10, …"""
+    vals = bytes((base + 10 * i) & 255 for i in range(nv))
+    m = "id" if amap is None else ",".join(map(str, amap))
+    return f"{att_type} 2 1 0 {uid} {nv} {m} {vals.hex() or '-'} none"
+
+
+def tiny_mesh(faces, npnt, atts):
+    fl = ",".join(str(i) for f in faces for i in f) or "-"
+    return f"mesh {npnt} {len(faces)} {fl} {len(atts)} " + " ".join(atts)
+
+
+def all_face_lists(npnt, nf):
+    tri = [(a, b, c) for a in range(npnt) for b in range(npnt) for c in range(npnt)]
+    lists = [[]]
+    for _ in range(nf):
+        lists = [l + [t] for l in lists for t in tri]
+    return lists
+
+
+def exhaustive_cases(rng, thorough):
+    """every input of a small shape"""
+    out = []
+
+    # clean-up: every ordered pair of faces over 3 points (+1 isolated point) x position layouts x all 16 option sets
+    pos_layouts = [
+        ("pos_identity", lambda: [tiny_att(0, 0, None, 4)]),
+        ("pos_shared_index", lambda: [tiny_att(0, 0, [0, 1, 1, 2], 4)]),            # points 1,2: same position index; value 3 unused
+        ("pos_alias+normal", lambda: [tiny_att(1, 0, [0, 1, 2, 0], 3, 100), tiny_att(0, 1, [0, 1, 0, 2], 3)]),
+    ]
+    pairs = all_face_lists(3, 2)
+    for name, mk in pos_layouts:
+        atts = mk()
+        for faces in pairs:
+            txt = tiny_mesh(faces, 4, atts)
+            for bits in range(16):
+                out.append((f"cleanup {bits} {txt}", ("exhaustive_cleanup_2x3", name, f"opts{bits}")))
+    if thorough:
+        atts = pos_layouts[1][1]()
+        for faces in all_face_lists(3, 3):
+            txt = tiny_mesh(faces, 4, atts)
+            for bits in (2, 3, 7):
+                out.append((f"cleanup {bits} {txt}", ("exhaustive_cleanup_3x3", f"opts{bits}")))
+    # strips: every pair (thorough: a class of the triples) of faces over 4 points; point 3 may alias the position
+    # of point 0 (an attribute seam) — both output modes
+    strip_layouts = [
+        ("pos_identity", 4, [tiny_att(0, 0, None, 4)]),
+        # point 4 has the position of point 0 and its own normal: edges at position 0 can be seams at one end only
+        ("pos_alias_seam", 5, [tiny_att(0, 0, [0, 1, 2, 3, 0], 4), tiny_att(1, 1, None, 5, 100)]),
+    ]
+    for name, npnt, atts in strip_layouts:
+        for faces in all_face_lists(npnt, 2):
+            txt = tiny_mesh(faces, npnt, atts)
+            for mode in (0, 1):
+                out.append((f"strips {mode} {txt}", (f"exhaustive_strips_2x{npnt}", name)))
+    if thorough:
+        triples = all_face_lists(4, 3)
+        off = rng.randrange(16)
+        name, npnt, atts = strip_layouts[0]
+        for faces in triples[off::16]:
+            txt = tiny_mesh(faces, 4, atts)
+            for mode in (0, 1):
+                out.append((f"strips {mode} {txt}", ("class_strips_3x4", name)))
+        triples = all_face_lists(5, 3)
+        off = rng.randrange(128)
+        name, npnt, atts = strip_layouts[1]
+        for faces in triples[off::128]:
+            txt = tiny_mesh(faces, 5, atts)
+            for mode in (0, 1):
+                out.append((f"strips {mode} {txt}", ("class_strips_3x5", name)))
+    # deduplication: 4 points, two attributes with every pair of point->value maps over 2 values each; the two
+    # values of an attribute are equal or different; as a cloud and as a mesh
+    maps = [[(m >> i) & 1 for i in range(4)] for m in range(16)]
+    combos = [(m1, m2, e1, e2) for m1 in maps for m2 in maps for e1 in (0, 1) for e2 in (0, 1)]
+    for (m1, m2, e1, e2) in combos:
+        a1 = f"0 2 1 0 0 2 {','.join(map(str, m1))} {'0a0a' if e1 else '0a14'} none"
+        a2 = f"4 5 1 0 1 2 {','.join(map(str, m2))} {'0100000001000000' if e2 else '01000000ffffffff'} none"
+        for kind in ("pc 4 0 - 2", "mesh 4 2 0,1,2,2,1,3 2"):
+            for op in ("dedupv", "dedupp", "dedupvp"):
+                out.append((f"{op} {kind} {a1} {a2}", ("exhaustive_dedup_4pts", op)))
+    return out
+
+
 def generate(rng, tier):
     thorough = tier == "thorough"
-    mult = 5 if thorough else 1
+    mult = 8 if thorough else 2
     cases = [make_case(w, tags=("witness",)) for w in WITNESSES]
+    for line, tags in exhaustive_cases(rng, thorough):
+        cases.append(make_case(line, tags=tags))
 
     def size():
         r = rng.random()
@@ -479,7 +570,7 @@ def generate(rng, tier):
             return rng.randint(1, 8)
         if r < 0.9:
             return rng.randint(9, 40)
-        return rng.randint(41, 400 if thorough else 160)
+        return rng.randint(41, 600 if thorough else 200)
 
     def add(line, tags, g=None):
         t = set(tags)
